@@ -1,7 +1,7 @@
 """C01 — every query cell gets one complete, ordered, tree-consistent assignment."""
 import json
 
-from harness import trees, routing
+from harness import trees, routing, mapcheck
 
 
 def routing_part(ctx):
@@ -68,6 +68,7 @@ def run(ctx):
                 'with <=4 levels and <=4 (quick) / <=6 (thorough) leaves plus random larger trees, random cell sets and '
                 'choices; non-trivial = >=2 levels and some parent with >=2 children, distinct by (shape, cell ids)')
     routing_part(ctx)
+    mapcheck.run_batch(ctx, ctx.n(25, 400), ('c01-', 'corr:Chunk'), 'map', raise_is_violation=True)
 
 
 def replay(ctx, rec):
